@@ -64,10 +64,12 @@ def run(ctx):
     base = {"combo": ["cms", "hh", "hll"], "cfg": cfg, "universe": [list(k) for k in universe], "delay": 1.0}
     RR = pc.RealRuns(ctx, width=2)
     RR.add("raise", dict(base, mode="raise", n_workers=2, items=pc.items_to_json(real_items)), 420)
-    RR.add("kill1", dict(base, mode="kill", n_workers=2, die_on_kth=1, items=pc.items_to_json(kill_items)), BOUND_S + 120)
+    # the worker is killed by a SIGNAL on its first item (what the OOM killer does: negative exit code); the thorough
+    # tier also uses os._exit(3) (positive exit code)
+    RR.add("kill1", dict(base, mode="kill", n_workers=2, die_on_kth=1, die_signal=True, items=pc.items_to_json(kill_items)), BOUND_S + 120)
     if not quick:
         for k, n in ((2, 2), (3, 3), (1, 1), (1, 5)):
-            RR.add("kill%d_n%d" % (k, n), dict(base, mode="kill", n_workers=n, die_on_kth=k,
+            RR.add("kill%d_n%d" % (k, n), dict(base, mode="kill", n_workers=n, die_on_kth=k, die_signal=(k == 2),
                                               items=pc.items_to_json(pc.gen_items(rng, 9))), BOUND_S + 200)
 
     env = pc.Env(ctx)
